@@ -56,12 +56,6 @@ theorem C18_position (f : Forest) (node : Nat) (t : HTree) (h : f.get? node = so
     t.handle = node ∧ ∃ anc, Occurs f t anc :=
   ⟨handle_of_get? h, occurs_of_get? h⟩
 
-private theorem strictValid {f : Forest} (hinv : f.Inv) (hoff : f.everOff = false) :
-    validList true f.roots = true := by
-  have := hinv.valid
-  rw [hoff] at this
-  exact this
-
 /-! ### C18_exact -/
 
 /-- The loop collects, and the call removes, exactly the specification's set; the start node is
@@ -79,33 +73,9 @@ theorem C18_exact (f : Forest) (hinv : f.Inv) (hoff : f.everOff = false)
     g.get? t.handle = specTop anc t := by
   intro g
   have nd := hinv.nodup
-  have hv := strictValid hinv hoff
+  have hv := strict_of_inv hinv hoff
   have hh := strip_handles nd hv pos
-  refine ⟨toRemove_eq nd hv pos, hh, ?_, strip_get? nd hv pos⟩
-  intro h hl
-  have hlf : h ∈ f.allHandles := by
-    unfold Forest.isLive at hl
-    cases hq : f.get? h with
-    | none => rw [hq] at hl; cases hl
-    | some q => exact get?_isSome_iff.1 ⟨q, hq⟩
-  have hiff : g.isLive h = true ↔ h ∈ g.allHandles := by
-    unfold Forest.isLive
-    rw [← get?_isSome_iff]
-    cases g.get? h <;> simp
-  constructor
-  · intro hg
-    have : h ∉ g.allHandles := fun hm => by rw [hiff.2 hm] at hg; cases hg
-    rw [hh, List.mem_filter] at this
-    cases hc : (specTopRemoved anc t).contains h with
-    | true => exact List.contains_iff_mem.1 hc
-    | false => exact absurd ⟨hlf, by rw [hc]; rfl⟩ this
-  · intro hm
-    rw [Bool.eq_false_iff]
-    intro hg
-    have := hiff.1 hg
-    rw [hh, List.mem_filter] at this
-    simp only [Bool.not_eq_true', List.contains_eq_mem, decide_eq_false_iff_not] at this
-    exact this.2 hm
+  exact ⟨toRemove_eq nd hv pos, hh, fun h hl => strip_removed_iff nd hv pos hl, strip_get? nd hv pos⟩
 
 /-- The specification's set lies inside the start node's subtree and consists of text nodes
     the rule selects at their own position. -/
@@ -113,7 +83,7 @@ theorem C18_exact_members (f : Forest) (hinv : f.Inv) (hoff : f.everOff = false)
     (t : HTree) (anc : List HTree) (pos : Occurs f t anc) (n : Nat) (hn : n ∈ specTopRemoved anc t) :
     n ∈ HTree.handles t ∧
     ∃ k ancn, Occurs f k ancn ∧ k.handle = n ∧ k.value.isText = true ∧ topDeleted ancn k = true :=
-  ⟨specTopRemoved_subset anc t n hn, removed_text hinv.nodup (strictValid hinv hoff) pos hn⟩
+  ⟨specTopRemoved_subset anc t n hn, removed_text hinv.nodup (strict_of_inv hinv hoff) pos hn⟩
 
 /-! ### C18_frame -/
 
@@ -129,7 +99,7 @@ theorem C18_frame (f : Forest) (hinv : f.Inv) (hoff : f.everOff = false)
     g.Inv := by
   intro g
   have nd := hinv.nodup
-  have hv := strictValid hinv hoff
+  have hv := strict_of_inv hinv hoff
   have e : g = pruned f (fun h => (specTopRemoved anc t).contains h) := strip_eq_pruned nd hv pos
   refine ⟨by rw [e]; exact ⟨rfl, rfl, rfl, rfl⟩, fun h hR => strip_frame nd hv pos hR,
     strip_handles nd hv pos, fun r hr hnot => strip_other_roots nd hv pos hr hnot, ?_⟩
@@ -145,7 +115,7 @@ theorem C18_idem (f : Forest) (hinv : f.Inv) (hoff : f.everOff = false)
     (t : HTree) (anc : List HTree) (pos : Occurs f t anc) :
     (f.removeInsignificantWhitespace t.handle).removeInsignificantWhitespace t.handle =
       f.removeInsignificantWhitespace t.handle :=
-  strip_idem hinv.nodup (strictValid hinv hoff) pos
+  strip_idem hinv.nodup (strict_of_inv hinv hoff) pos
 
 /-! ### C18_safe -/
 
@@ -162,7 +132,7 @@ theorem C18_safe (f : Forest) (hinv : f.Inv) (hoff : f.everOff = false)
       ∀ m ∈ n :: post, g.textOf m = f.textOf m ∧ (f.textOf m).isSome = true := by
   intro toRemove
   have nd := hinv.nodup
-  have hv := strictValid hinv hoff
+  have hv := strict_of_inv hinv hoff
   have e : toRemove = specTopRemoved anc t := toRemove_eq nd hv pos
   refine ⟨e ▸ removed_nodup nd hv pos, ?_⟩
   intro pre n post hs
@@ -174,30 +144,20 @@ theorem C18_safe (f : Forest) (hinv : f.Inv) (hoff : f.everOff = false)
 theorem C18_safe_separated (f : Forest) (hinv : f.Inv) (hoff : f.everOff = false)
     (k : HTree) (anc : List HTree) (pos : Occurs f k anc) (hk : k.value.isText = true)
     (p : Nat) (hp : f.prevSibling k.handle = some p) : f.textOf p = none :=
-  prev_not_text hinv.nodup (strictValid hinv hoff) pos hk hp
+  prev_not_text hinv.nodup (strict_of_inv hinv hoff) pos hk hp
 
 /-! ### Non-vacuity -/
 
-/-- `<a xml:space="default">·<b xml:space="preserve">·</b>x<c>·<d/>\n</c></a>` (· = space). -/
-private def ex : Forest :=
-  { roots := [.node 0 (.element 2) [
-      .node 1 (.attribute 0 ['d','e','f','a','u','l','t']) [],
-      .node 2 (.text [' ']) [],
-      .node 3 (.element 3) [.node 4 (.attribute 0 ['p','r','e','s','e','r','v','e']) [], .node 5 (.text [' ']) []],
-      .node 6 (.text ['x']) [],
-      .node 7 (.element 4) [.node 8 (.text [' ']) [], .node 9 (.element 5) [], .node 10 (.text ['\n']) []]]],
-    next := 11 }
+example : exampleForest.Inv ∧ exampleForest.everOff = false := ⟨(Forest.inv_iff _).1 (by decide), rfl⟩
 
-example : ex.Inv ∧ ex.everOff = false := ⟨(Forest.inv_iff _).1 (by decide), rfl⟩
-
-/-- The start node `<c>` of the example with its position. -/
-example : ∃ t anc, Occurs ex t anc ∧ t.handle = 7 ∧ specTopRemoved anc t = [8, 10] := by
+/-- The start node `<c>` of `Fws.exampleForest` with its position. -/
+example : ∃ t anc, Occurs exampleForest t anc ∧ t.handle = 7 ∧ specTopRemoved anc t = [8, 10] := by
   refine ⟨_, _, .kid (.root (List.Mem.head _)) (List.Mem.tail _ (List.Mem.tail _ (List.Mem.tail _ (List.Mem.tail _ (List.Mem.head _))))), rfl, ?_⟩
   decide
 
 /-- On the whole example: only the two texts under `<c>` go (the first is kept because of the
     sibling `x`, the one in `<b>` because of `preserve`). -/
-example : (ex.removeInsignificantWhitespace 0).allHandles = [0, 1, 2, 3, 4, 5, 6, 7, 9] := by decide
+example : (exampleForest.removeInsignificantWhitespace 0).allHandles = [0, 1, 2, 3, 4, 5, 6, 7, 9] := by decide
 
 /-! ### The boundary: consolidation has been off -/
 
@@ -206,12 +166,6 @@ def C18_frameStatement : Prop :=
   ∀ (f : Forest), f.Inv → ∀ (t : HTree) (anc : List HTree), Occurs f t anc →
     ∀ h, h ∉ specTopRemoved anc t →
       (f.removeInsignificantWhitespace t.handle).value? h = f.value? h
-
-/-- Three adjacent whitespace-only text nodes (built while consolidation was off, consolidation
-    on again): stripping the middle one. -/
-def adjacentWitness : Forest :=
-  { roots := [.node 0 (.element 2) [.node 1 (.text [' ']) [], .node 2 (.text ['\n']) [], .node 3 (.text ['\t']) []]],
-    next := 4, everOff := true }
 
 /-- Stripping at the middle text node removes it (as specified) but `remove` then consolidates
     its neighbours: node 3, outside the start node's subtree, is deleted and node 1 changes value. -/
